@@ -192,12 +192,12 @@ class ExportTargetCallee(Contract):
         return st.alloc(vckt.ConnectionTarget)
 
 
-def export_concat_obligations():
+def export_concat_obligations(max_arity=4):
     key = "hdl21.proto.exporting:export_concat"
     ext = loader.extract(key)
     info = {"sha": ext.sha, "lines": ext.lines, "path": ext.path, "paths": 0, "scenarios": 0, "unsupported": []}
     obs = []
-    for arity in (1, 2, 3, 4):
+    for arity in range(1, max_arity + 1):
         schema = dict(SCHEMA_EXTRA)
         schema["Concat.parts"] = "py"
         schema["parts"] = "seq[ref]"
